@@ -95,7 +95,7 @@ enum Op {
     SeekEnd(i64),
 }
 fn op_coq(o: &Op) -> String {
-    let z = |d: &i64| if *d < 0 { format!("({})%Z", d) } else { format!("{}%Z", d) };
+    let z = |d: &i64| if *d < 0 { format!("(zn {})", d.unsigned_abs()) } else { format!("(zp {})", d) };
     match o {
         Op::Fill => "OFill".into(),
         Op::Consume(n) => format!("OConsume {}", n),
